@@ -19,6 +19,15 @@ struct c10_session : public vsim_session {
       o << " nfeat=" << cv->variables_active()->size() << "\n";
       return true;
     }
+    if (cmd == "outprefix") {
+      // (re)run the output set-up after the configuration: this is when multiple-walker biases register themselves
+      proxy->set_output_prefix(a.size() ? a[0] : "");
+      cvm::clear_error();
+      int err = proxy->colvars->setup_output();
+      o << "OUTPREFIX err=" << vs_errclass(err | cvm::get_error()) << "\n";
+      cvm::clear_error();
+      return true;
+    }
     if (cmd == "frame") {
       std::ifstream f(a[0].c_str());
       int k = atoi(a[1].c_str());
